@@ -123,3 +123,24 @@ Proof.
   split; [|vm_compute; reflexivity].
   repeat constructor; unfold u64, max_count; cbn; try lia; try (eexists; reflexivity).
 Qed.
+
+(* C05 (byte-copy path of the merge, merge.go copyStoredDocs): when the inputs' field tables are the
+   same and nothing is deleted, a merge copies each document's stored block verbatim to a new place
+   and writes a new index entry.  A block decodes to the same stored values wherever it lies. *)
+Section Copy.
+Variable snappy_enc : bytes -> bytes.
+Variable dec_snappy : bytes -> option bytes.
+Hypothesis snappy_ok : forall x, dec_snappy (snappy_enc x) = Some x.
+Theorem stored_block_copy : forall ft f1 i1 d1 so1 r1 t1 f2 i2 d2 so2 r2 t2 idv es,
+  Forall (wf_ent ft) es -> u64 (nlenb (concat (map e_val es))) -> u64 (nlenb idv) ->
+  u64 (nlenb (uv (nlenb idv) ++ enc_ents 0 es)) -> u64 (nlenb (idv ++ snappy_enc (concat (map e_val es)))) ->
+  so1 < 256 ^ 8 -> so2 < 256 ^ 8 ->
+  at_off f1 (i1 + 8 * d1) = Some (be 8 so1 ++ r1) -> at_off f1 so1 = Some (enc_doc snappy_enc idv es ++ t1) ->
+  at_off f2 (i2 + 8 * d2) = Some (be 8 so2 ++ r2) -> at_off f2 so2 = Some (enc_doc snappy_enc idv es ++ t2) ->
+  stored_doc dec_snappy f1 ft i1 d1 = stored_doc dec_snappy f2 ft i2 d2.
+Proof.
+  intros. rewrite (stored_doc_roundtrip snappy_enc dec_snappy snappy_ok ft f1 i1 d1 so1 idv es r1 t1) by assumption.
+  rewrite (stored_doc_roundtrip snappy_enc dec_snappy snappy_ok ft f2 i2 d2 so2 idv es r2 t2) by assumption. reflexivity.
+Qed.
+End Copy.
+Print Assumptions stored_block_copy.
